@@ -293,6 +293,8 @@ def nularOp (n : Name) (m : M) : Option OpRes :=
   else if n == n!"scriptnull" then pure' m (.script 0)
   else if n == n!"createhashmap" then let (m', id) := m.allocMap []; pure' m' (.mapref id)
   else if n == n!"currentnamespace" then pure' m (.ns (match m.top? with | some f => f.globals | none => 0))
+  -- `exit__`: the run is asked to end; nothing executes behind this instruction
+  else if n == n!"exit__" then pure' { m with exitReq := true } .nil
   else none
 
 /-! ### unary operators -/
